@@ -3,6 +3,7 @@ package main
 import (
 	"context"
 	"strconv"
+	"strings"
 
 	"github.com/cristalhq/acmd"
 	"github.com/go-critic/go-critic/checkers"
@@ -11,8 +12,9 @@ import (
 
 // environment model of the sub-command runner: `<binary> check <args>`
 var (
-	gsxCmds []acmd.Command
-	gsxArgs []string
+	gsxCmds    []acmd.Command
+	gsxArgs    []string
+	gsxCmdName = "check"
 )
 
 //gsx:stub github.com/cristalhq/acmd.RunnerOf = gsxStubRunnerOf
@@ -24,7 +26,7 @@ func gsxStubRunnerOf(cmds []acmd.Command, cfg acmd.Config) *acmd.Runner {
 //gsx:stub (*github.com/cristalhq/acmd.Runner).Run = gsxStubRunnerRun
 func gsxStubRunnerRun(r *acmd.Runner) error {
 	for _, c := range gsxCmds {
-		if c.Name == "check" {
+		if c.Name == gsxCmdName {
 			return c.ExecFunc(context.Background(), gsxArgs)
 		}
 	}
@@ -65,4 +67,23 @@ func gsxC08ParamCLI() {
 	want, _ := strconv.Atoi(val)
 	gsxrt.Assert(!exited, "param: the command refuses a numeric checker parameter")
 	gsxrt.Assert(checkers.GSXParamSeen() == want, "param: the checker is built with the parameter value given on the command line")
+}
+
+// gsxC17DocList: the doc sub-command of the real main lists every rule group
+// of the built-in rule data next to the hand-written checkers, each exactly once.
+func gsxC17DocList() {
+	world := checkers.GSXWorld()
+	k := gsxrt.Choose("group", len(world))
+	gsxCmdName, gsxArgs = "doc", nil
+	exited := gsxrt.Exits(main)
+	gsxCmdName = "check"
+	gsxrt.Reached("main ended")
+	gsxrt.Assert(!exited, "groups: the doc sub-command stops with a fatal message")
+	n := 0
+	for _, l := range gsxrt.OutLines() {
+		if strings.HasPrefix(l, world[k]+" ") {
+			n++
+		}
+	}
+	gsxrt.Assert(n == 1, "groups: the doc sub-command does not list a rule group's checker exactly once")
 }
